@@ -404,6 +404,58 @@ static void c01_tagged_fixed(uint64_t v) {
     }
 }
 
+/* The bounded tagged reader with every kind of available-length argument: the encoding sits at the start of a
+ * region that really is lenMax bytes long (a lazily mapped 2 GiB region), so any lenMax >= the encoded length is a
+ * legal call and must decode the value; a smaller one must report 0. */
+#include <sys/mman.h>
+static void c01_tagged_lenmax(uint64_t v, rng_t *r) {
+    static uint8_t *region = NULL;
+    if (!region) {
+        region = mmap(NULL, (size_t)INT32_MAX + 4096, PROT_READ | PROT_WRITE, MAP_PRIVATE | MAP_ANONYMOUS | MAP_NORESERVE, -1, 0);
+        if (region == MAP_FAILED) {
+            region = NULL;
+            return;
+        }
+    }
+    uint8_t *z = region + (rng_next(r) & 7);
+    int n = varintTaggedPut64(z, v);
+    static const int32_t fixed[] = {9, 10, 16, 127, 128, 255, 256, 257, 258, 259, 260, 261, 262, 263, 264, 265, 511, 512, 513, 1023, 1024, 4096, 32767, 32768,
+                                    65535, 65536, 65537, 65544, 1 << 20, 1 << 24, (1 << 24) + 3, 1 << 30, INT32_MAX - 1, INT32_MAX};
+    int32_t lens[48];
+    int nl = 0;
+    for (size_t i = 0; i < sizeof fixed / sizeof fixed[0]; i++) lens[nl++] = fixed[i];
+    lens[nl++] = n;
+    lens[nl++] = n + 1;
+    for (int k = 0; k < 6; k++) {
+        uint64_t x = rng_next(r);
+        int sh = (int)(rng_next(r) % 31);
+        lens[nl++] = (int32_t)((x >> 33) >> sh) | (int32_t)(k & 1 ? 0x100 << (sh % 20) : 0);
+    }
+    for (int i = 0; i < nl; i++) {
+        int32_t L = lens[i];
+        uint64_t out = ~v;
+        g_ctx = "varintTaggedGet";
+        int gn = varintTaggedGet(z, L, &out);
+        if (L >= n) {
+            if (gn != n) {
+                FAIL("tagged", "Get", "length-disagrees", "v=%" PRIu64 " lenMax=%d: decoder returned %d, encoder %d", v, (int)L, gn, n);
+            } else if (out != v) {
+                FAIL("tagged", "Get", "value-mismatch", "v=%" PRIu64 " lenMax=%d decoded=%" PRIu64, v, (int)L, out);
+            }
+        } else if (gn != 0) {
+            FAIL("tagged", "Get", "truncated-not-reported", "v=%" PRIu64 " lenMax=%d (encoding is %d bytes) returned %d", v, (int)L, n, gn);
+        }
+        STAT_INC("c01_tagged_lenmax_calls");
+    }
+    for (int32_t L = -1; L < n; L++) {
+        uint64_t out = ~v;
+        if (varintTaggedGet(z, L, &out) != 0) {
+            FAIL("tagged", "Get", "truncated-not-reported", "v=%" PRIu64 " lenMax=%d (encoding is %d bytes) did not return 0", v, (int)L, n);
+        }
+    }
+    memset(z, 0, 9);
+}
+
 /* external little / big endian */
 static void c01_external(uint64_t v, rng_t *r) {
     int minw = ref_bytes_needed(v);
@@ -638,6 +690,7 @@ static void c01_value(uint64_t v, rng_t *r) {
         c01_family(&FAMS[fi], (int)fi, v);
     }
     c01_tagged_fixed(v);
+    c01_tagged_lenmax(v, r);
     c01_external(v, r);
     c01_signed(v, r);
 }
